@@ -171,7 +171,7 @@ func builtinStringMatch(call FunctionCall) Value {
 	result := matcher.regExpValue().regularExpression.FindAllStringIndex(target, -1)
 	if result == nil {
 		matcher.put("lastIndex", intValue(0), true)
-		return Value{} // !match
+		return nullValue // 15.5.4.10 step 8.g: no match yields null
 	}
 	matchCount := len(result)
 	valueArray := make([]Value, matchCount)
